@@ -12,7 +12,7 @@ use noodles_gff::{
     },
 };
 
-#[derive(Clone, Debug, PartialEq, Eq)]
+#[derive(Clone, PartialEq, Eq)]
 pub struct Norm {
     pub seqid: Vec<u8>,
     pub source: Vec<u8>,
@@ -25,6 +25,26 @@ pub struct Norm {
     pub phase: Option<u8>,
     /// ordered; a single value and a one-element array are the same thing on the wire
     pub attrs: Vec<(Vec<u8>, Vec<Vec<u8>>)>,
+}
+
+impl std::fmt::Debug for Norm {
+    fn fmt(&self, f: &mut std::fmt::Formatter<'_>) -> std::fmt::Result {
+        let l = |b: &Vec<u8>| String::from_utf8_lossy(b).into_owned();
+        let attrs: Vec<(String, Vec<String>)> = self.attrs.iter().map(|(k, vs)| (l(k), vs.iter().map(l).collect())).collect();
+        write!(
+            f,
+            "{{seqid: {:?}, source: {:?}, type: {:?}, start: {}, end: {}, score: {:?}, strand: {}, phase: {:?}, attributes: {:?}}}",
+            l(&self.seqid),
+            l(&self.source),
+            l(&self.ty),
+            self.start,
+            self.end,
+            self.score.map(f32::from_bits),
+            ["none", "+", "-", "?"][self.strand as usize],
+            self.phase,
+            attrs
+        )
+    }
 }
 
 pub fn score_bits(x: f32) -> u32 {
